@@ -1,6 +1,6 @@
 PROPERTIES = ['C03', 'C02']
 BOUNDS = {
-    'quick': 'optional<TA>, variant<TA,TB,int>, expected<TA,TB> with instrumented alternatives (copy+move; move-only and copy-only for the subset that compiles): one operation from every state, '
+    'quick': 'optional<TA>, variant<TA,TB,int>, expected<TA,TB> with instrumented alternatives (copy+move; move-only and copy-only for the subset that compiles; and alternatives with user-provided constructors/destructor but defaulted, trivial assignment): one operation from every state, '
              'every (from, to) index pair of assignment / swap / emplace / converting construction and assignment (index symbolic, case-split inside one query); payloads and object bytes symbolic; '
              'histories of 2 symbolic operations on two objects from the default-constructed pair (copy+move; 6 op codes variant, 7 optional)',
     'thorough': 'the same single steps plus histories: 2 operations on two variants from every state pair (copy+move) and from (TA, TB) (move-only, copy-only); 3 operations on two optionals from the empty pair, '
@@ -35,7 +35,7 @@ def queries(tier, prop='C03'):
         if e == 'v_assign_own_alt': q['kf_only'] = 'C03_variant_assign_own_alternative'   # the whole query lies inside the known-finding region
         if e.endswith('_hist'): q['object_bits'] = 14
         out.append(q)
-    flavs = (0, 1, 2) if not ub else (0,)
+    flavs = (0, 1, 2, 3) if not ub else (0,)   # 3: user-provided constructors/destructor, defaulted (trivial) assignment
     for fl in flavs:
         for (pre, al, cp) in (('o_', O_ALL, O_COPY), ('v_', V_ALL, V_COPY), ('x_', X_ALL, X_COPY)):
             for e in al + ([] if fl == 1 else cp):
@@ -47,9 +47,10 @@ def queries(tier, prop='C03'):
         else:
             for a in (0, 1, 2):
                 for b in (0, 1, 2): add('v_hist', 0, budget=2400, KSTEPS=2, HSA=a, HSB=b)
-            for fl in (1, 2): add('v_hist', fl, budget=2400, KSTEPS=2, HSA=0, HSB=1)
+            for fl in (1, 2, 3): add('v_hist', fl, budget=2400, KSTEPS=2, HSA=0, HSB=1)
             for f in range(7): add('o_hist', 0, budget=2400, KSTEPS=3, HSA=0, HSB=0, FIRST=f)
-            for fl in (1, 2): add('o_hist', fl, budget=2400, KSTEPS=2, HSA=1, HSB=0)
+            for fl in (1, 2, 3): add('o_hist', fl, budget=2400, KSTEPS=2, HSA=1, HSB=0)
     for q_ in out:
         q_['lazy_trace'] = True   # verdict first, counterexample trace only when an obligation fails (engine/runner.py)
+        if q_['cfg'].get('FLAV') == 3: q_['cbmc_flags'] = ['--max-field-sensitivity-array-size', '256']   # defaulted assignment = memcpy through pointers: keep the ledger global field-sensitive
     return out
